@@ -244,6 +244,10 @@ def ur_rows(sig, T0, T1, csub, k):
 @contract
 class UpdateReachable(Contract):
     qualname = "nasim.envs.network.Network._update_reachable"
+
+    def modifies(self, I, S):
+        return [tensor_of(S.a["state"])]
+
     tags = {"": ("C03", "C04", "C01", "C12", "C13")}
 
     def concretize(self, I, S):
@@ -363,6 +367,10 @@ def ss_dicts(sig, T0, tsub, disc, newly, k):
 @contract
 class PerformSubnetScan(Contract):
     qualname = "nasim.envs.network.Network._perform_subnet_scan"
+
+    def modifies(self, I, S):
+        return [tensor_of(S.a["next_state"])]
+
     tags = {"": ("C02", "C03", "C05", "C08", "C04", "C07", "C12", "C13")}
 
     def variants(self):
